@@ -1202,7 +1202,8 @@ def iterate_fn(
         states = []
         for row_inputs, row_kwinputs in args_and_kwargs:
           states.append(thread_pool.submit(fn, *row_inputs, **row_kwinputs))
-        outputs = list(x.result() for x in futures.as_completed(states))
+        # In submission order: row i of the outputs belongs to row i of the inputs.
+        outputs = [x.result() for x in states]
       # Only transpose when fn returns multiple items (exact tuple).
       if outputs and type(outputs[0]) is tuple:  # pylint: disable=unidiomatic-typecheck
         return tuple(zip(*outputs))
